@@ -31,6 +31,8 @@ def run(ctx):
     ctx.assume("vectorised NumPy primitives are uniform in the array length, so N generic grains represent every N")
     tables(ctx)
     Ns = (2,) if ctx.tier == "quick" else (1, 2, 3)
+    ctx.rule("C02.guard-threshold", "every data-dependent early exit on the rate path is an exact-zero test or a tolerance no larger than the 1e-9 activity level "
+                                    "that C02 excludes: a larger threshold replaces the published rates by the fallback on a set of inputs the property covers")
     ctx.rule("C02.rates", "derivatives(...) == reference D-Rex (dA_g, df_g) per fabric, regime, ordering, N (one obligation per output array)")
     loc = defloc(ctx, "pydrex.core.derivatives")
     nex = 0
@@ -49,6 +51,8 @@ def run(ctx):
                         ctx.ob("C02.rates", tag, False, f"returned {type(out).__name__}, expected (orientations_diff, fractions_diff)", loc)
                         continue
                     dA, df = out
+                    if N == Ns[0]:
+                        guard_thresholds(ctx, I, tag, loc)
                     rA, rf, _ = drex.reference(inp, fabric, regime, perm)
                     ident_arr(ctx, "C02.rates", tag + ":dA", dA, rA, loc, what="orientation rate")
                     ident_arr(ctx, "C02.rates", tag + ":df", df, rf, loc, what="volume-fraction rate")
@@ -59,6 +63,44 @@ def run(ctx):
     ctx.floor("C02.rates", 2 * 2 * (5 * 6 + 1) * len(Ns))
     for a in alg.ASSUMPTIONS:
         ctx.assume(a)
+
+
+LIMIT = alg.Fr(1, 10 ** 9)
+
+
+def guard_thresholds(ctx, I, tag, loc):
+    from ..values import Guard
+
+    def consts(g, acc):
+        if isinstance(g, Guard):
+            if g.kind == "cmp":
+                op, a, b = g.args[0], g.args[1], g.args[2]
+                if op == "between":
+                    acc += [abs(x.cval()) for x in b if isinstance(x, E) and x.is_const()]
+                else:
+                    for x in (a, b):
+                        if isinstance(x, E):
+                            for m, c_ in x.t.items():
+                                if m == ():
+                                    acc.append(abs(c_))
+            else:
+                for a in g.args:
+                    consts(a, acc)
+        elif isinstance(g, (tuple, list)):
+            for a in g:
+                consts(a, acc)
+    seen = set()
+    for g, outcome, gloc, fn in I.guards:
+        acc = []
+        consts(g, acc)
+        big = [c_ for c_ in acc if c_ > LIMIT]
+        key = (gloc, fn)
+        if key in seen:
+            continue
+        seen.add(key)
+        ctx.ob("C02.guard-threshold", f"{tag}:{fn.split('.')[-1]}@{gloc.split(':')[-1]}", not big,
+               f"early exit ({outcome[0]}) guarded by a tolerance of {float(max(big)) if big else 0:g} > 1e-9: inputs within that band get the fallback value instead of the published rates",
+               gloc, key=("C02.guard-threshold", tag, gloc))
 
 
 def tables(ctx):
